@@ -13,6 +13,9 @@ open Pynenc
 /-- what the task body will do -/
 inductive Script where
   | ok | fail | retry | waitChild      -- waitChild: the body waits for a sub-task nobody will run any more
+  | pause            -- the body raises WorkflowPauseError: `run` only logs it — the thread ends, the invocation stays RUNNING
+  | startFault       -- the store fails at the PENDING → RUNNING write: the handler's PENDING → FAILED is refused, the thread
+                     -- dies, the invocation stays PENDING under this runner
   deriving DecidableEq, Repr
 
 /-- program counter of the task thread (`DistributedInvocation.run`) -/
@@ -57,10 +60,12 @@ def req (T : Table) (s : St) (st : Status) : Option SRec :=
 def tStep (T : Table) (s : St) : Option St :=
   match s.t with
   | .start =>
+    if s.script = .startFault then some { s with t := .done }   -- nothing written: the thread is gone, the record is as it was
+    else
     match req T s .running with
     | some r => some { s with sr := r, t := .body }
     | none => some { s with t := .done }                    -- status error swallowed by `run`
-  | .body => some { s with t := if s.script = .waitChild then .waiting else .store }
+  | .body => some { s with t := if s.script = .waitChild then .waiting else if s.script = .pause then .done else .store }
   | .store => some { s with t := .publish }                  -- set_result / set_exception / increment retries
   | .publish =>
     let target : Status := match s.script with | .ok => .success | .fail => .failed | _ => .retry
@@ -71,10 +76,12 @@ def tStep (T : Table) (s : St) : Option St :=
   | .waiting => none                                          -- the child is never final: the loop spins for ever
   | .done => none
 
-/-- one step of the stop procedure -/
-def kStep (T : Table) (s : St) : Option St :=
+/-- one step of the stop procedure.  `deadBranch = true` is the code: an ENDED thread is joined and its invocation still goes
+    through kill-and-reroute (ignored when it is final).  `deadBranch = false` is the variant that prunes ended threads first, the
+    way the loop's slot reclaim does, and only handles the alive ones. -/
+def kStepV (deadBranch : Bool) (T : Table) (s : St) : Option St :=
   match s.k with
-  | .check => some { s with k := if s.t = .done then .joinDead else .kill }
+  | .check => some { s with k := if s.t = .done then (if deadBranch then .joinDead else .done) else .kill }
   | .kill =>
     match req T s .killed with
     | some r => some { s with sr := r, k := .reroute }
@@ -97,15 +104,20 @@ def kStep (T : Table) (s : St) : Option St :=
   | .pushDead => some { s with queued := s.queued + 1, k := .done }
   | .done => none
 
-def successors (T : Table) (s : St) : List St :=
-  (match tStep T s with | some x => [x] | none => []) ++ (match kStep T s with | some x => [x] | none => [])
+def kStep (T : Table) (s : St) : Option St := kStepV true T s
+
+def successorsV (d : Bool) (T : Table) (s : St) : List St :=
+  (match tStep T s with | some x => [x] | none => []) ++ (match kStepV d T s with | some x => [x] | none => [])
 
 /-- all states reachable within `fuel` steps from `s` in which no step is enabled (terminal or stuck) -/
-def terminals (T : Table) : Nat → St → List St
-  | 0, s => if (successors T s).isEmpty then [s] else []
+def terminalsV (d : Bool) (T : Table) : Nat → St → List St
+  | 0, s => if (successorsV d T s).isEmpty then [s] else []
   | fuel + 1, s =>
-    let succ := successors T s
-    if succ.isEmpty then [s] else succ.flatMap (terminals T fuel)
+    let succ := successorsV d T s
+    if succ.isEmpty then [s] else succ.flatMap (terminalsV d T fuel)
+
+def successors (T : Table) (s : St) : List St := successorsV true T s
+def terminals (T : Table) (fuel : Nat) (s : St) : List St := terminalsV true T fuel s
 
 /-- the postcondition of the property for one invocation: final, or available + queued + nobody's -/
 def post (T : Table) (s : St) : Bool :=
